@@ -85,6 +85,10 @@ mod envimp {
         /// File-size limit in bytes (RLIMIT_FSIZE).
         pub fn set_limit(&mut self, l: usize) { g::set_limit(l); }
         pub fn clear_limit(&mut self) { g::set_limit(g::NO_LIMIT); }
+        /// The template will only look at the length of the file, never at its bytes.
+        pub fn length_only(&mut self) { g::set_store(false); }
+        /// Length of the file.
+        pub fn file_len(&self) -> usize { g::len() }
         /// The device takes `b` more bytes, then every write fails (not emulated natively).
         pub fn set_budget(&mut self, b: usize, short: bool) { g::set_budget(b, short); }
         /// Every write transfers at most `c >= 1` bytes (not emulated natively).
@@ -160,6 +164,8 @@ mod envimp {
                 }
             }
         }
+        pub fn length_only(&mut self) {}
+        pub fn file_len(&self) -> usize { std::fs::metadata(&self.path).map(|m| m.len() as usize).unwrap_or(0) }
         pub fn set_budget(&mut self, _b: usize, _short: bool) { sym::assume(false); }
         pub fn set_chop(&mut self, _c: usize) { sym::assume(false); }
         pub fn set_open_fail(&mut self) {
